@@ -62,11 +62,69 @@ def check_converters(rep):
                 rep.violation(f"converter:{a}_to_{b}:array-differs-from-scalar", {}, "")
 
 
+SIGNED_INPUTS = ["kapitaleink_brutto_m", "eink_selbst_m", "eink_vermietung_m"]
+
+
+def variant_frame(df, variant):
+    """Population variants for the ratio stage: incomes that may legally be losses turned negative; every timed amount scaled up."""
+    df = df.copy()
+    if variant == "losses":
+        for c in SIGNED_INPUTS:
+            if c in df.columns:
+                x = df[c].to_numpy(dtype=float)
+                df[c] = np.where(x != 0, -np.abs(x), -137.55)
+    elif variant == "scaled":
+        for c in timed_inputs(df):
+            if c not in ("wohnfläche_hh",):
+                df[c] = df[c].to_numpy(dtype=float) * 37.3
+    return df
+
+
+def check_handwritten_converters(rep, dates):
+    """Every hand-written rule whose only argument is its own name in another time unit, on a signed value alphabet."""
+    import inspect
+
+    vals = [0.0, 0.01, -0.01, 1.0, -1.0, 250.5, -250.5, 1234.56, -1234.56, 1e6 + 0.37, -(1e6 + 0.37), 2.0**-20, -(2.0**-20), 9999999.99, -9999999.99]
+    seen = set()
+    for d in dates:
+        _, funcs = harness.env(d)
+        for name, fn in sorted(funcs.items()):
+            sp = split(name)
+            if not sp:
+                continue
+            args = [a for a in inspect.signature(fn).parameters if not a.endswith("_params")]
+            if len(args) != 1 or len(inspect.signature(fn).parameters) != 1:
+                continue
+            sa = split(args[0])
+            if not sa or sa[0] != sp[0] or sa[2] != sp[2] or sa[1] == sp[1]:
+                continue
+            key = (name, getattr(fn, "__code__", None) and fn.__code__.co_code)
+            if key in seen:
+                continue
+            seen.add(key)
+            factor = PER_YEAR[sa[1]] / PER_YEAR[sp[1]]
+            for x in vals:
+                rep.state(("handwritten-converter", name, x))
+                rep.step()
+                try:
+                    got = float(fn(x))
+                except Exception as e:  # noqa: BLE001
+                    rep.violation(f"handwritten-converter-raises:{name}", {"date": d, "value": x}, repr(e)[:200])
+                    continue
+                want = Fraction(x) * factor
+                if abs(Fraction(got) - want) > Fraction(1, 10**12) * abs(want):
+                    rep.violation(f"handwritten-converter:{name}", {"date": d, "rule": name, "argument": args[0], "value": x, "got": got, "exact": float(want)},
+                                  f"{name}({args[0]}={x!r}) = {got!r} on {d}, but {float(factor)} x {x!r} = {float(want)!r}")
+                rep.outcome(("handwritten-converter", name))
+    rep.extra["handwritten_converter_rules"] = len(seen)
+
+
 def task_ratios(arg):
-    date_iso, names = arg
+    date_iso, names, *rest = arg
+    variant = rest[0] if rest else "library"
     out = Partial()
     year = int(date_iso[:4])
-    df = popgen.frame(popgen.combined(names, year))
+    df = variant_frame(popgen.frame(popgen.combined(names, year)), variant)
     cols = list(df.columns)
     p, f = harness.env(date_iso)
     try:
@@ -120,7 +178,7 @@ def task_ratios(arg):
             ok = rel_close(yearly[u], yearly[ref_u], 1e-12)
             if not ok.all():
                 i = int(np.argmin(ok))
-                out.violation(f"ratio:{b}{u}{a}", {"date": date_iso, "households": names, "names": names4, "row": i,
+                out.violation(f"ratio:{b}{u}{a}", {"date": date_iso, "households": names, "variant": variant, "names": names4, "row": i,
                                                    "values": {k: float(np.asarray(vals[v], dtype=float)[i]) for k, v in names4.items()}},
                               f"{names4[u]} x {float(PER_YEAR[u])} = {yearly[u][i]!r} but {names4[ref_u]} x {float(PER_YEAR[ref_u])} = {yearly[ref_u][i]!r} on {date_iso}")
         # conversion commutes with group summation (only where the group-level name is an automatic sum of an individual-level one)
@@ -312,6 +370,16 @@ def task_derived_nodes(arg):
 
 
 def replay(case):
+    if "rule" in case and "argument" in case:
+        _, funcs = harness.env(case["date"])
+        sp, sa = split(case["rule"]), split(case["argument"])
+        got = float(funcs[case["rule"]](case["value"]))
+        want = float(Fraction(case["value"]) * PER_YEAR[sa[1]] / PER_YEAR[sp[1]])
+        return abs(got - want) <= 1e-12 * abs(want), f"{case['rule']}({case['value']}) = {got}, exact {want}"
+    if "variant" in case and "names" in case:
+        part = task_ratios((case["date"], case["households"], case["variant"]))
+        v = [x for x in part["violations"] if x[1].get("names") == case["names"]]
+        return not v, "; ".join(x[2] for x in v[:2])
     if "derived_node" in case:
         part = task_derived_nodes((case["date"], case["households"], [case["derived_node"]]))
         v = [x for x in part["violations"] if x[1].get("supplied_as") == case["supplied_as"]]
@@ -331,7 +399,8 @@ def run(tier):
     dates = [d.isoformat() for d in (popgen.d15() if thorough else popgen.quick_dates(4))]
     combos = [["couple_kids", "single_parent", "pensioners"], ["patchwork", "parental_leave", "unemployed", "self_employed"],
               ["three_gen", "poor_pensioner", "erwerbsgemindert", "young_adult", "parent_elsewhere", "single"]]
-    for part in harness.pmap(task_ratios, harness.rotate([(d, c) for d in dates for c in combos])):
+    check_handwritten_converters(rep, [d.isoformat() for d in popgen.d15()])
+    for part in harness.pmap(task_ratios, harness.rotate([(d, c, v) for d in dates for c in combos for v in ("library", "losses", "scaled")])):
         rep.merge(part)
     for part in harness.pmap(task_group_commute, harness.rotate([(d, c) for d in dates for c in combos])):
         rep.merge(part)
@@ -366,5 +435,6 @@ def run(tier):
         "every name with a time suffix (with or without group suffix) among the nodes and data columns of the default-target graph x dates x "
         "household sets: all four unit variants requested together and compared by the fixed factors; every timed float input supplied in each "
         "other unit must reproduce all nodes; automatic group sums of all four units vs. group sums of the individual-level variants; the 12 "
-        "converters vs exact Fractions incl. round trips"
+        "converters vs exact Fractions incl. round trips; the ratio stage repeated with loss-making capital / self-employment / rental income and with all "
+        "timed amounts scaled by 37.3; every hand-written one-argument converter rule of every date class on a signed value alphabet"
     )
